@@ -60,7 +60,7 @@ GradOf(doc, gi) ==
       lin == doc.nodes[gi].tag = "linearGradient"
       units == IF Has(at, "gradientUnits") THEN Get(at, "gradientUnits") ELSE "objectBoundingBox"
       bb == units = "objectBoundingBox"
-      vw == doc.vb[3]  vh == doc.vb[4]
+      vw == doc.view[3]  vh == doc.view[4]
       \* defaults: percentages of the bbox (unit square) or of the viewport
       Dim(name) == IF name \in {"y1", "y2", "cy", "fy"} THEN vh ELSE vw   \* (square viewBox: diagonal/sqrt2 = side)
       Dft(name, pctnum) == IF Has(at, name)
